@@ -19,7 +19,7 @@ THEOREMS = ["valOf_bv", "bv_valOf", "add_correct", "sub_correct", "mul_correct",
             "repr_inv", "repr_inv_un", "repr_inv_conv", "repr_inv_fixNumber", "repr_inv_counterexample",
             "exact_doubles", "exact_doubles_plain_mul_fails",
             "mk64_canon", "mk64_value", "add64_correct", "sub64_correct", "neg64_correct", "valOf_toBV", "flatten64_exact",
-            "mul64_correct", "mul64_scheme"]
+            "mul64_correct", "mul64_scheme", "specShift_clamp"]
 
 SMALL = {"int8": (8, True), "int16": (16, True), "int32": (32, True), "int": (32, True),
          "uint8": (8, False), "uint16": (16, False), "uint32": (32, False), "uint": (32, False), "uintptr": (32, False)}
